@@ -210,3 +210,36 @@ def as_difference(t):
             if y[0] == 'un' and y[1] == '-':
                 return x, y[2]
     return None
+
+
+def passed_guards(res):
+    """conditions of the early exits (raise / return) of an analysed function:
+    every later statement runs under their negation"""
+    out = set()
+    for o in res.outcomes:
+        if o.kind in ('raise', 'return') and o.cond:
+            t, p = norm_cond(o.cond)[-1]
+            if p:
+                out.add(t)
+    return out
+
+
+def beyond_guards(cond, res):
+    """path condition with the negations of earlier early-exit guards removed"""
+    g = passed_guards(res)
+    return [(t, p) for t, p in norm_cond(cond) if not (p is False and t in g)]
+
+
+_POS = {'!=': '==', 'is not': 'is', 'not in': 'in'}
+
+
+def canon_cond(cond):
+    """norm_cond + negative comparison operators folded into the polarity:
+    (a != b, False) and (a == b, True) become the same entry"""
+    out = []
+    for t, p in norm_cond(cond):
+        if t[0] == 'cmp' and t[1] in _POS:
+            from hpstatic.terms import intern
+            t, p = intern(('cmp', _POS[t[1]], t[2], t[3])), not p
+        out.append((t, p))
+    return out
